@@ -8,7 +8,8 @@ for all action lists (arbitrary segments) and all actions.
                                       with `its own actions ++ the adopted ones` and with the adopted node's successor;
  * InterruptableActionNode.convert  - the interrupting action (yield) alone on the first fall-through, the following actions on the
                                       second, nothing consumed; without successor the machine ends in a fresh accepting state;
- * MatchNode._adopt_actions         - each adopted action is attached to the match exactly once, in order (per-iteration).
+ * MatchNode._adopt_actions         - each adopted action is attached to the match exactly once, in order (per-iteration);
+ * DFTransition.copy                - same symbols/actions/target/kind in lists of its own (no aliasing with the original).
 The literal/end builders (DirectMatch, CaseDirectMatch, EndMatch) are proved in leaf_proofs.py and counted here as well.
 append_after and the composite converts are NOT reached (aliased graphs of unbounded shape): they stay under the run-time contracts."""
 import ast
@@ -28,6 +29,7 @@ def prove(rep, nmfu, program, prop="C01"):
         nob += _attach(rep, nmfu, program, prop)
         nob += _adoption(rep, nmfu, program, prop)
         nob += _interruptable(rep, nmfu, program, prop)
+        nob += _transition_copy(rep, nmfu, program, prop)
     finally:
         Engine.mutable_sets = old_ms
     return nob
@@ -167,6 +169,38 @@ def _interruptable(rep, nmfu, program, prop):
                         cl.structural("ends-accepting", isinstance(tgt, SObj) and tgt not in (s0, s1) and _items(tgt.fields["transitions"]) == [] and _same(dfa.fields["accepting_states"], [tgt]),
                                       "without successor the machine must end in a fresh accepting state")
             n += cl.n
+    return n
+
+
+def _transition_copy(rep, nmfu, program, prop):
+    """DFTransition.copy: the copy has the same symbols, actions, target and kind, in lists of its own - a later attach() to one of
+    the two (chain_actions_into, the fall-through short-circuit) must not reach the other."""
+    fnq = "DFTransition.copy"
+    rep.fn(fnq)
+    n = 0
+    for ft in (False, True):
+        for eh in (False, True):
+            def body(eng, ft=ft, eh=eh):
+                O, A = Seg("on_values"), Seg("actions")
+                tgt = SObj(nmfu.DFState, {"transitions": HList([])})
+                me = SObj(nmfu.DFTransition, {"on_values": HList([O]), "actions": HList([A]), "target": tgt, "is_fallthrough": ft, "error_handling": eh})
+                v, _ = call_function(eng, fnq, [], self_obj=me)
+                return (v, me, O, A, tgt), {}
+            for ri, r in enumerate(explore(program, body, contracts=DEBUG_CONTRACTS)):
+                cl = Clauses(rep, prop, fnq, f"ft={ft}.eh={eh}.{ri}", r.pc, None)
+                if r.exits or r.dead is not False or not isinstance(r.value[0], SObj):
+                    cl.fail("no-exception", f"raises {[e.exc_cls.__name__ for e in r.exits]}")
+                    n += cl.n
+                    continue
+                v, me, O, A, tgt = r.value
+                f, g = v.fields, me.fields
+                cl.structural("is-a-new-transition", v is not me and v.cls is nmfu.DFTransition, "the copy must be a new DFTransition")
+                cl.structural("same-symbols", _same(f.get("on_values", []), [O]) and _same(g["on_values"], [O]), "symbols differ / original changed")
+                cl.structural("same-actions-in-order", _same(f.get("actions", []), [A]) and _same(g["actions"], [A]), "actions differ / original changed")
+                cl.structural("own-symbol-list", f.get("on_values") is not g["on_values"], "the copy shares its on_values list with the original: DFState.transition edits it in place")
+                cl.structural("own-action-list", f.get("actions") is not g["actions"], "the copy shares its actions list with the original: an attach() to one reaches the other")
+                cl.structural("same-target-and-kind", f.get("target") is tgt and f.get("is_fallthrough") is ft and f.get("error_handling") is eh, "target / fall-through / error-handling flag differ")
+                n += cl.n
     return n
 
 
